@@ -2010,7 +2010,7 @@ func (r *Raft) installSnapshot(rpc RPC, req *InstallSnapshotRequest) {
 	// do not continue the snapshot must not survive next to it, where they
 	// would later be served as part of the history it stands for.
 	var snapLast Log
-	continues := prevSnapIdx > req.LastLogIndex ||
+	continues := (prevSnapIdx > req.LastLogIndex && prevSnapTerm >= req.LastLogTerm) ||
 		(prevSnapIdx == req.LastLogIndex && prevSnapTerm == req.LastLogTerm)
 	if err := r.logs.GetLog(req.LastLogIndex, &snapLast); err == nil && snapLast.Term == req.LastLogTerm {
 		continues = true
